@@ -15,8 +15,8 @@ for f in sorted(glob.glob(os.path.join(HERE, "seeded", "*", "meta.json"))):
             sig = v[0]
             break
     ok = m.get("suite_passes_with_patch") and m.get("demo_exit_with_patch") == 1 and m.get("demo_exit_without_patch") == 0
-    rows.append((m["name"], m["breaks_property"], m.get("summary", ""), m.get("needs_to_manifest", ""), "yes" if ok else "NO", ", ".join(caught) or "-", ", ".join(missed) or "-", sig))
-lines = ["| name | property | change | needs to manifest | verified (suite passes, demo fails/passes) | caught by (quick) | also run, silent | first signature |", "|---|---|---|---|---|---|---|---|"]
+    rows.append((m["name"], m["breaks_property"], m.get("summary", ""), m.get("needs_to_manifest", ""), "yes" if ok else "NO", ", ".join(caught) or "-", ", ".join(missed) or "-", (", ".join(m["initially_caught_by"]) or "none") if "initially_caught_by" in m else "(as now)", sig))
+lines = ["| name | property | change | needs to manifest | verified (suite passes, demo fails/passes) | caught by (quick) | also run, silent | caught before strengthening | first signature |", "|---|---|---|---|---|---|---|---|---|"]
 for r in rows:
     lines.append("| " + " | ".join(str(x).replace("|", "/") for x in r) + " |")
 out = "# Independently seeded property-breaking changes\n\nEach directory holds `patch.diff`, `demo.py`, `notes.md` (from the sub-agent) and `meta.json` (verification done here by `tools/seed_verify.py`).\nApply with `git -C /repo apply seeded/<name>/patch.diff`, undo with `git -C /repo checkout -- .`.\n\n" + "\n".join(lines) + "\n"
